@@ -75,6 +75,7 @@ inductive Err
   | badColor           -- `RGB.fromcss` on None / on a string that is no colour
   | unsupported        -- outside the modelled input space (e.g. marker value that is not a string)
   | invalidType        -- ValueError("Invalid object type")
+  | invalidAttribute   -- svgwrite: ValueError("Invalid attribute 'rx' for svg-element <use>")
   | diverges           -- cyclic symbol dependencies
 deriving DecidableEq, Repr
 
@@ -315,7 +316,7 @@ structure Drawn where
   group : Group
   refs : List Str         -- ids referenced from inside the group
   defs : List Str         -- ids `draw_object` makes sure are defined in `<defs>`
-deriving Repr
+deriving DecidableEq, Repr
 
 def styleType : Kind → Str
   | .box | .symbol | .boxSymbol => "Box".toList
@@ -410,10 +411,26 @@ def assemble (fixed : Bool) (T : Tables) (o : Obj) (p : Prep) : Except Err Drawn
                  ++ p.uses.flatMap (symbolInnerRefs T.symbols (T.symbols.length + 1)),
          defs := symIds ++ d1 ++ d2 }
 
+def rxKey : Str := "rx".toList
+def ryKey : Str := "ry".toList
+
+/-- `_draw_symbol` / `_add_port` hand the whole object style to a `<use>` element; svgwrite rejects
+the rectangle-only attributes `rx` / `ry` there (the one piece of svgwrite's validation that the
+style tables can trigger) -/
+def useRejects (T : Tables) (o : Obj) (p : Prep) : Bool :=
+  o.kind = .symbol && (!T.allPorts.contains o.cls || T.allDirectedPorts.contains o.cls) &&
+  p.objStyle.attrs.any (fun a => a.1 = rxKey || a.1 = ryKey)
+
+/-- a bare element of the given kind and style class (no label, no override, …) -/
+def plainObj (k : Kind) (cls : Str) : Obj :=
+  { kind := k, id := [], cls := cls, context := [], hasLabel := false, nFloating := 0, nEdgeLabels := 0,
+    nFeatures := 0, hasChildren := false, hasDescription := false, style := [] }
+
 /-- `Drawing.draw_object` -/
 def drawObjectWith (fixed : Bool) (T : Tables) (dc : Option Str) (o : Obj) : Except Err Drawn := do
   let defaults ← getStyle T.styles dc (styleType o.kind ++ '.' :: o.cls)
-  assemble fixed T o (prepare T dc o defaults)
+  let p := prepare T dc o defaults
+  if useRejects T o p then .error .invalidAttribute else assemble fixed T o p
 
 def drawObject := drawObjectWith true
 
